@@ -14,4 +14,8 @@ INVARIANT Inv
 INVARIANT NFold
 INVARIANT Order
 INVARIANT ExactByLength
+INVARIANT AbsOK
+INVARIANT FloorDivOK
+INVARIANT ToWeeksOK
+INVARIANT BoolOK
 CHECK_DEADLOCK FALSE
